@@ -43,7 +43,9 @@ const schema = `type Acc { name: String
  bal: Int @crdt(type: pcounter)
  note: String }
 type Item { k: Int
- v: String }`
+ v: String }
+type Tag { name: String @index
+ n: Int }`
 
 type ack struct {
 	line string // the history line
@@ -296,6 +298,7 @@ func (w *world) runCase(lines []string, seed uint64) {
 		case "go":
 			w.phaseAPI(r, plans, nRemote)
 			w.phaseSharedTxn(nShared)
+			w.phaseSharedHandle(nShared)
 			w.emitHistory()
 		}
 	}
@@ -387,6 +390,47 @@ func (w *world) phaseSharedTxn(g int) {
 	w.out.Count("shared-commit:" + errClass(cerr))
 }
 
+// phaseSharedHandle: G goroutines create (and some delete) documents of an indexed collection through ONE collection
+// handle, as an embedding program that keeps the handle in a variable does
+func (w *world) phaseSharedHandle(g int) {
+	if g == 0 {
+		return
+	}
+	col, err := w.n.DB.GetCollectionByName(w.ctx, "Tag")
+	must(err)
+	var wg sync.WaitGroup
+	for i := 0; i < g; i++ {
+		wg.Add(1)
+		go func(i int) {
+			defer wg.Done()
+			defer w.guard("shared-handle create")
+			for j := 0; j < 12; j++ {
+				label := fmt.Sprintf("h%d-%d", i, j)
+				d, err := client.NewDocFromJSON([]byte(fmt.Sprintf(`{"name": "%s", "n": %d}`, label, j)), col.Definition())
+				must(err)
+				err = col.Create(w.ctx, d)
+				c := "ok"
+				if err != nil {
+					c = classify("error: " + err.Error())
+				}
+				w.record(fmt.Sprintf("ack create %s %s", label, c))
+				if c == "ok" && j%4 == 3 {
+					ok, err := col.Delete(w.ctx, d.ID())
+					dc := "ok"
+					if err != nil {
+						dc = classify("error: " + err.Error())
+					} else if !ok {
+						dc = "error"
+					}
+					w.record(fmt.Sprintf("ack delete %s %s", label, dc))
+				}
+			}
+		}(i)
+	}
+	wg.Wait()
+	w.out.Count("shared-handle-goroutines:" + strconv.Itoa(g))
+}
+
 // emitHistory: the acknowledged history in a canonical order, then the observed final state
 func (w *world) emitHistory() {
 	sort.Strings(w.hist)
@@ -394,10 +438,11 @@ func (w *world) emitHistory() {
 		w.out.Emit(h, "ok")
 		w.out.Count(strings.Join(strings.Fields(h)[:2], " ") + " " + lastField(h))
 	}
-	res := w.n.GQL(w.ctx, `query { Acc { _docID bal note } Item { v } }`)
+	res := w.n.GQL(w.ctx, `query { Acc { _docID bal note } Item { v } Tag { name } }`)
 	var m struct {
 		Acc  []map[string]any
 		Item []map[string]any
+		Tag  []map[string]any
 	}
 	if err := json.Unmarshal([]byte(res), &m); err != nil {
 		w.out.Emit("final unreadable", clip(res, 200))
@@ -465,6 +510,17 @@ func (w *world) emitHistory() {
 	var items []string
 	for _, it := range m.Item {
 		items = append(items, fmt.Sprint(it["v"]))
+	}
+	// documents of the indexed collection count when the scan AND the index lookup for their own value return them
+	for _, tg := range m.Tag {
+		name := fmt.Sprint(tg["name"])
+		via := w.n.GQL(w.ctx, fmt.Sprintf(`query { Tag(filter: {name: {_eq: "%s"}}) { name } }`, name))
+		var vm struct{ Tag []map[string]any }
+		if json.Unmarshal([]byte(via), &vm) == nil && len(vm.Tag) == 1 && fmt.Sprint(vm.Tag[0]["name"]) == name {
+			items = append(items, name)
+		} else {
+			w.out.Oracle(w.out.Lines, fmt.Sprintf("[index-lost-acknowledged-create] case %d: document %s of the indexed collection is returned by a scan but the index lookup for its value returns %s", w.caseID, name, clip(via, 120)))
+		}
 	}
 	sort.Strings(items)
 	got := map[string]bool{}
